@@ -382,11 +382,9 @@ def ag5(m, run, rule='AG5.serial-parallel'):
            % (wname, sorted(rest_s.items()), it_txt, sorted(pargs.items()), mapped), site(mp, pc))
     # filled flag equals the predicate value in the serial branch
     # (`if pts_inside: filled[idx] = 1` with filled initialised to 0 and the worker returning 0/1)
-    sel = [c for c in walk_no_nested(m.func('voxelize.voxelize').node) if isinstance(c, ast.IfExp)]
-    okd = any('find_inouts_mp' in norm(x.body) and 'find_inouts_st' in norm(x.orelse) and
-              norm(x.body).split('(', 1)[1] == norm(x.orelse).split('(', 1)[1] for x in sel)
-    run.ob(rule, 'voxelize.voxelize :: dispatch passes the same arguments', okd, 'mp and st variants receive identical arguments' if okd else
-           'the two variants are called with different arguments', site(m.func('voxelize.voxelize')))
+    # the dispatch in voxelize.voxelize is decided on an abstract container (serial and parallel receive the same per-element arguments)
+    from .. import skel_drivers as _sd
+    _sd.vx3(m, run, rule)
     # (b) container tessellation
     ct = m.func('multi.SurfaceContainer.tessellate')
     pcs = ag.pool_calls(ct.node)
